@@ -838,6 +838,10 @@ func c10JWTFinalizerScenario(r *simcore.Run) {
 		stepCfg = fmt.Sprintf("\n      config:\n        ttl: %ds", ttlS)
 	}
 	keyName := simcore.Pick(s, []string{"ec256", "ec384", "rsa2048"}, "key")
+	// custom claims naming the registered time claims (which they cannot override): whatever ends up in the token, it
+	// must not be handed out after its own exp
+	claims := []string{"", "", "        claims: '{\"exp\": {{ add (now | unixEpoch) 3 }}, \"role\": \"x\"}'\n",
+		"        claims: '{\"exp\": 1, \"nbf\": 1, \"iat\": 1}'\n"}[s.Draw(4, "claims-naming-exp")]
 	mech := fmt.Sprintf(`
 mechanisms:
   authenticators:
@@ -852,7 +856,7 @@ mechanisms:
           key_store:
             path: %s
         ttl: %ds
-`, simkeys.FixturePath(keyName), protoTTL)
+%s`, simkeys.FixturePath(keyName), protoTTL, claims)
 	rules := fmt.Sprintf(c10Rules, "    - authenticator: anon\n    - finalizer: jwt"+stepCfg)
 	r.Logf("scenario=%s cache=%s ttl=%ds (catalogue %ds) key=%s", kind, cacheKind, ttlS, protoTTL, keyName)
 	e, err := newEnv(r, cacheKind, mech, rules)
